@@ -133,8 +133,9 @@ def fam_table(tier):
         out.append(program(dict(_positions(p, q))[pos], sof=sof, unset=unset))
   # dimensioned measurement whose validator raises at phase end; two diagnosers
   for pos in ('top', 'subtest', 'teardown'):
-    p = phase('p', beh('CFSEK', ('v', 'u')), o=opts(limit=1), mk='dimraise')
-    out.append(program(dict(_positions(p, phase('q', beh('C'))))[pos], unset=True))
+    for unset in (True, False):     # unset=False: a dimensioned measurement left UNSET fails its phase
+      p = phase('p', beh('CFSEK', ('v', 'u')), o=opts(limit=1), mk='dimraise')
+      out.append(program(dict(_positions(p, phase('q', beh('C'))))[pos], unset=unset))
     p = phase('p', beh('CFE', ('n',), [(a, b) for a in '0aB!' for b in '0bD!']),
               o=opts(limit=1), ndiag=2)
     out.append(program(dict(_positions(p, phase('q', beh('C'))))[pos]))
@@ -340,6 +341,17 @@ def compare(o, g, prog):
     i = next((k for k in range(min(len(mr), len(gr))) if mr[k] != gr[k]), min(len(mr), len(gr)))
     bad.append(('phase_records', 'phase record %d is %s, model says %s'
                 % (i, gr[i] if i < len(gr) else 'missing', mr[i] if i < len(mr) else 'absent')))
+  # internal diagnoses (harness choice per diagnoser) are kept out of the record's list
+  exp_diags, idx = [], 0
+  internal = set(g.get('internal_slots', []))
+  for dc in g.get('dcalls', []):
+    if dc['b'] in ('0', '!') or idx >= len(o['diags']):
+      continue
+    if not (dc['n'] in internal and dc['b'].islower()):
+      exp_diags.append(o['diags'][idx])
+    idx += 1
+  exp_diags += o['diags'][idx:]
+  o = dict(o, diags=exp_diags)
   for key, cat in (('subs', 'subtests'), ('brs', 'branches'), ('cks', 'checkpoints'),
                    ('diags', 'diagnoses')):
     if o[key] != g[key]:
